@@ -20,20 +20,28 @@ def fix_ifeq(ops):
 
 
 def regions(p, r, limit):
-    """insert stop…explore around every contiguous range of a thread's own operations (not across
-    `ifeq`), and `skip` at every position"""
+    """insert stop…explore around every contiguous range of a thread's own operations, and `skip` at every position.
+    An `ifeq` refers to an earlier operation by distance and skips a number of operations: nothing is inserted
+    between the operation it refers to and the end of its skip range (that would change the program)."""
     head, ths = threads(p)
     out = []
     for t, ops in enumerate(ths):
         n = len(ops)
+        spans = []
+        for k, o in enumerate(ops):
+            a = o.split()
+            if a and a[0] == "ifeq":
+                spans.append((k - int(a[1]), k + int(a[3])))
+
+        def free(pos):          # may something be inserted before ops[pos]?
+            return all(pos <= lo or pos > hi for lo, hi in spans)
+
         for i in range(n + 1):
-            for j in range(i, n + 1):
-                seg = ops[i:j]
-                if any(o.startswith("ifeq") for o in ops[i:j + 3]) or not seg:
-                    continue
-                new = ops[:i] + ["stop"] + seg + ["explore"] + ops[j:]
-                out.append(rebuild(head, ths[:t] + [new] + ths[t + 1:]))
-            if not any(o.startswith("ifeq") for o in ops[max(0, i - 1):i + 3]):
+            for j in range(i + 1, n + 1):
+                if free(i) and free(j) and all(j <= lo or i > hi for lo, hi in spans):
+                    new = ops[:i] + ["stop"] + ops[i:j] + ["explore"] + ops[j:]
+                    out.append(rebuild(head, ths[:t] + [new] + ths[t + 1:]))
+            if free(i):
                 new = ops[:i] + ["skip"] + ops[i:]
                 out.append(rebuild(head, ths[:t] + [new] + ths[t + 1:]))
     if len(out) > limit:
